@@ -79,7 +79,11 @@ func c16Run(in *c16Input) Res {
 				done <- Res{"res": "ok", "val": map[string]interface{}{"error": false, "sameSum": false, "rowsCount": -1, "blocks": -1, "unreadable": true}}
 				return
 			}
-			done <- Res{"res": "ok", "val": map[string]interface{}{"error": false, "sameSum": bytes.Equal(sum, sum1),
+			// the table index (first key of every block) must be the single-threaded one too
+			ti1, e1 := objects.GetTableIndex(ref, sum1)
+			ti, e2 := objects.GetTableIndex(db, sum)
+			sameIdx := e1 == nil && e2 == nil && fmt.Sprint(ti1) == fmt.Sprint(ti)
+			done <- Res{"res": "ok", "val": map[string]interface{}{"error": false, "sameSum": bytes.Equal(sum, sum1) && sameIdx,
 				"rowsCount": t.RowsCount, "blocks": len(t.Blocks), "refRows": t1.RowsCount, "refBlocks": len(t1.Blocks)}}
 		}()
 		select {
